@@ -81,7 +81,7 @@ LEVEL_TEXT = ("C13_<importer>_faithful and C13_<importer>_end_to_end (Coq): for 
               "the row's signed amount in the row's currency (viac: one price per non-zero daily value), and nothing else; "
               "C13_print_balanced, C13_description_verbatim and the byte-level witness C13_quote_breaks_header for the "
               "shared back half.  Deviations of the code from the property's wording are stated as the relation the code "
-              "implements and listed as findings.  Group B (Properties/C13b.v): C13_revolut2_faithful (one transaction per completed row, "
+              "implements and listed as findings.  Group B (Properties/C13b.v): C13b_print_balanced / C13b_journal_balanced (what a group B importer hands to the printer consists of posting pairs), C13_revolut2_faithful (one transaction per completed row, "
               "Amount - Fee; one assertion per day and currency with the last row's Balance), C13_revolut_faithful (one transaction per row, "
               "exchange rows in two commodities; an assertion at every change of date), C13_wise_faithful (zero, one or two transactions per "
               "row as ws_entries lists them) with C13_wise_incoming_conversion_refuted (IN with conversion credits the target amount twice), "
